@@ -108,7 +108,18 @@ def lean_theorems(relpath):
     qualified by enclosing `namespace`s (simple, line-based)."""
     names = []
     ns = []
+    depth = 0
     for line in open(os.path.join(LEAN, relpath), encoding="utf-8"):
+        # skip block comments / doc comments (a line starting with `theorem` inside one is prose)
+        opens = line.count("/-")
+        closes = line.count("-/")
+        if depth > 0:
+            depth += opens - closes
+            continue
+        if opens > closes:
+            depth += opens - closes
+            if not re.match(r"^\s*(theorem|namespace|end)\b", line):
+                continue
         m = re.match(r"^namespace\s+(\S+)", line)
         if m:
             ns.append(m.group(1))
